@@ -277,6 +277,7 @@ theorem step_inv {pool : List Nat} {nq src dst : Nat} {s : St}
   | work q => exact work_inv h q
   | join l => simp [Ev.isPoolChange] at hnp
   | drop i => simp [Ev.isPoolChange] at hnp
+  | redial i l => simp [Ev.isPoolChange] at hnp
 
 theorem run_inv {pool : List Nat} {nq src dst : Nat}
     (hs : orderByte src ≠ 0) (hd : orderByte dst ≠ 0) (es : List Ev) :
@@ -314,6 +315,7 @@ theorem step_sent (s : St) (e : Ev) :
     | cons fr rest => rw [step_work_cons hq]
   | join l => left; rfl
   | drop i => left; by_cases hi : i < s.pool.length <;> simp [step, hi]
+  | redial i l => left; rfl
 
 theorem step_seqOk {s : St} (h : SeqOk s) (e : Ev) : SeqOk (step s e) := by
   unfold SeqOk at *
